@@ -119,14 +119,24 @@ class BlockDiagLinearOperator(BlockLinearOperator, metaclass=_MetaBlockDiagLinea
     def _root_decomposition(
         self: Float[LinearOperator, "... N N"]
     ) -> Union[Float[torch.Tensor, "... N N"], Float[LinearOperator, "... N N"]]:
-        return self.__class__(self.base_linear_op._root_decomposition())
+        root = self.base_linear_op._root_decomposition()
+        if root.shape[-1] != root.shape[-2]:
+            # a low-rank (n x k) root of the blocks cannot be wrapped in a block operator (square blocks only)
+            return super()._root_decomposition()
+        return self.__class__(root)
 
     def _root_inv_decomposition(
         self: Float[LinearOperator, "*batch N N"],
         initial_vectors: Optional[torch.Tensor] = None,
         test_vectors: Optional[torch.Tensor] = None,
     ) -> Union[Float[LinearOperator, "... N N"], Float[Tensor, "... N N"]]:
-        return self.__class__(self.base_linear_op._root_inv_decomposition(initial_vectors))
+        if initial_vectors is not None:
+            # the probe vectors belong to the whole operator, not to its blocks
+            return super()._root_inv_decomposition(initial_vectors)
+        root = self.base_linear_op._root_inv_decomposition()
+        if root.shape[-1] != root.shape[-2]:
+            return super()._root_inv_decomposition()
+        return self.__class__(root)
 
     def _size(self) -> torch.Size:
         shape = list(self.base_linear_op.shape)
